@@ -14,6 +14,8 @@ import (
 	"github.com/containerd/nri/pkg/api"
 	"github.com/containerd/nri/pkg/net/multiplex"
 	"github.com/containerd/ttrpc"
+
+	"nriverif/fx"
 )
 
 // Directions of a link.
@@ -70,6 +72,7 @@ type link struct {
 	closedAt time.Time
 	closedC  chan struct{}
 	gate     chan struct{} // non-nil while the stub->runtime pump is stalled
+	peer     *refuser      // the raw runtime peer behind `out`, if any
 	wg       sync.WaitGroup
 }
 
@@ -174,8 +177,11 @@ func (l *link) pump(dir int, src, dst net.Conn, srcOwner, dstOwner string) {
 		}
 		n, err := src.Read(buf[:size])
 		if n > 0 {
+			// counted before they are handed on: a reader of the counters never sees fewer
+			// bytes than the peer may already have received
+			total := l.bytes[dir].Add(int64(n))
 			_, werr := dst.Write(buf[:n])
-			if bud >= 0 && l.bytes[dir].Add(int64(n)) >= bud {
+			if bud >= 0 && total >= bud {
 				if l.hold > 0 {
 					select {
 					case <-time.After(l.hold):
@@ -184,9 +190,6 @@ func (l *link) pump(dir int, src, dst net.Conn, srcOwner, dstOwner string) {
 				}
 				l.shut("proxy")
 				return
-			}
-			if bud < 0 {
-				l.bytes[dir].Add(int64(n))
 			}
 			if werr != nil {
 				l.shut(dstOwner)
@@ -208,53 +211,130 @@ func (l *link) status() string {
 	return fmt.Sprintf("#%d %s s2r=%d r2s=%d", l.n, w, l.bytes[s2r].Load(), l.bytes[r2s].Load())
 }
 
-// refuser is a raw runtime peer (multiplexer + ttRPC server, built the way
-// pkg/adaptation/plugin.go connect()/start() builds the runtime end) that answers
-// RegisterPlugin with an error. Like the adaptation it leaves closing the connection to the
-// plugin, unless closeAfter is set. With accept it registers the plugin and then drops the
-// connection without ever configuring it.
+// rawMode says how the raw runtime peer behaves.
+type rawMode struct {
+	accept     bool          // answer RegisterPlugin with success (otherwise with an error)
+	closeAfter bool          // close the connection `delay` after answering
+	delay      time.Duration //
+	silent     bool          // never answer RegisterPlugin at all, keep the connection open
+	configure  bool          // after registering the plugin, configure it (and then stay up)
+	regMs      int64         // ConfigureRequest.RegistrationTimeout
+	reqMs      int64         // ConfigureRequest.RequestTimeout
+	doSync     bool          // send an (empty) Synchronize after Configure
+	updSilent  bool          // never answer the plugin's UpdateContainers (and do not close)
+}
+
+// refuser is a raw runtime peer (multiplexer + ttRPC server and client, built the way
+// pkg/adaptation/plugin.go connect()/start() builds the runtime end). Depending on its mode
+// it answers RegisterPlugin with an error (like the adaptation it leaves closing the
+// connection to the plugin, unless closeAfter is set), registers the plugin and drops the
+// connection without configuring it, registers it and stays silent, never answers at all, or
+// completes the handshake itself with the scripted timeouts in its ConfigureRequest.
 type refuser struct {
-	conn       net.Conn
-	mux        multiplex.Mux
-	rpcs       *ttrpc.Server
-	rpcl       net.Listener
-	closeAfter bool
-	accept     bool          // answer RegisterPlugin with success, then (closeAfter) drop: Configure never comes
-	delay      time.Duration // between the answer and the close
-	regs       atomic.Int32
-	done       chan struct{}
-	once       sync.Once
+	conn   net.Conn
+	mux    multiplex.Mux
+	rpcs   *ttrpc.Server
+	rpcl   net.Listener
+	rpcc   *ttrpc.Client
+	plugin api.PluginService
+	mode   rawMode
+	regs   atomic.Int32
+	cfgErr atomic.Value // error text of the Configure / Synchronize call, if any
+	done   chan struct{}
+	quit   chan struct{} // closed by close(): releases a silent RegisterPlugin
+	once   sync.Once
 }
 
 func (r *refuser) RegisterPlugin(context.Context, *api.RegisterPluginRequest) (*api.Empty, error) {
 	r.regs.Add(1)
-	if r.closeAfter {
+	if r.mode.silent {
+		<-r.quit
+		return &api.Empty{}, errors.New("verif: runtime gone")
+	}
+	if r.mode.closeAfter {
 		go func() {
-			time.Sleep(r.delay)
+			time.Sleep(r.mode.delay)
 			r.close()
 		}()
 	}
-	if r.accept {
-		return &api.Empty{}, nil
+	if !r.mode.accept {
+		return &api.Empty{}, errors.New("verif: registration refused")
 	}
-	return &api.Empty{}, errors.New("verif: registration refused")
+	if r.mode.configure {
+		go r.handshake()
+	}
+	return &api.Empty{}, nil
+}
+
+// handshake is the runtime's part after registration: Configure with the scripted timeouts,
+// optionally an empty Synchronize.
+func (r *refuser) handshake() {
+	ctx, cancel := context.WithTimeout(context.Background(), 5*time.Second)
+	defer cancel()
+	_, err := r.plugin.Configure(ctx, &api.ConfigureRequest{
+		RuntimeName:         "verif-raw",
+		RuntimeVersion:      "0",
+		RegistrationTimeout: r.mode.regMs,
+		RequestTimeout:      r.mode.reqMs,
+	})
+	if err == nil && r.mode.doSync {
+		_, err = r.plugin.Synchronize(ctx, &api.SynchronizeRequest{})
+	}
+	if err != nil {
+		r.cfgErr.Store(err.Error())
+	}
+}
+
+// probe delivers the fixture's probe event straight to the plugin.
+func (r *refuser) probe() error {
+	ctx, cancel := context.WithTimeout(context.Background(), 2*time.Second)
+	defer cancel()
+	_, err := r.plugin.StateChange(ctx, &api.StateChangeEvent{
+		Event: api.Event_REMOVE_POD_SANDBOX,
+		Pod:   &api.PodSandbox{Id: fx.ProbePodID},
+	})
+	return err
 }
 
 func (r *refuser) UpdateContainers(context.Context, *api.UpdateContainersRequest) (*api.UpdateContainersResponse, error) {
+	if r.mode.updSilent {
+		<-r.quit
+		return nil, errors.New("verif: runtime gone")
+	}
 	return &api.UpdateContainersResponse{}, nil
 }
 
-func newRefuser(conn net.Conn, accept, closeAfter bool, delay time.Duration) (*refuser, error) {
-	r := &refuser{conn: conn, accept: accept, closeAfter: closeAfter, delay: delay, done: make(chan struct{})}
+// create delivers a CreateContainer request for the fixture's probe pod to the plugin.
+func (r *refuser) create() error {
+	ctx, cancel := context.WithTimeout(context.Background(), 2*time.Second)
+	defer cancel()
+	_, err := r.plugin.CreateContainer(ctx, &api.CreateContainerRequest{
+		Pod:       &api.PodSandbox{Id: fx.ProbePodID},
+		Container: &api.Container{Id: "c16-probe-ctr", PodSandboxId: fx.ProbePodID},
+	})
+	return err
+}
+
+func newRefuser(conn net.Conn, mode rawMode) (*refuser, error) {
+	r := &refuser{conn: conn, mode: mode, done: make(chan struct{}), quit: make(chan struct{})}
 	r.mux = multiplex.Multiplex(conn, multiplex.WithBlockedRead())
+	pconn, err := r.mux.Open(multiplex.PluginServiceConn)
+	if err != nil {
+		r.mux.Close()
+		return nil, err
+	}
+	r.rpcc = ttrpc.NewClient(pconn)
+	r.plugin = api.NewPluginClient(r.rpcc)
 	rpcs, err := ttrpc.NewServer()
 	if err != nil {
+		r.rpcc.Close()
 		r.mux.Close()
 		return nil, err
 	}
 	rpcl, err := r.mux.Listen(multiplex.RuntimeServiceConn)
 	if err != nil {
 		rpcs.Close()
+		r.rpcc.Close()
 		r.mux.Close()
 		return nil, err
 	}
@@ -270,6 +350,8 @@ func newRefuser(conn net.Conn, accept, closeAfter bool, delay time.Duration) (*r
 
 func (r *refuser) close() {
 	r.once.Do(func() {
+		close(r.quit)
+		r.rpcc.Close()
 		r.rpcs.Close()
 		r.rpcl.Close()
 		r.mux.Close()
